@@ -24,7 +24,10 @@ func lenWords(d []byte) []lenWord {
 
 func walkLenWords(d []byte, base, next, tail int, out *[]lenWord) {
 	*out = append(*out, lenWord{base, next, tail})
-	type el struct{ start, val, end int; tag byte }
+	type el struct {
+		start, val, end int
+		tag             byte
+	}
 	var els []el
 	p := 4
 	for p < len(d)-1 {
